@@ -16,7 +16,9 @@ RULE = ("random RDF 1.1 graphs and datasets (default graph, IRI and blank-node g
         "need (and, in ~15% of the cases, prefix/datatype tables of 1-3 entries that a statement may overflow: a refusal "
         "with JellyConformanceError is then accepted, written bytes must still round-trip; in ~15% the caller's ONE options object "
         "was first used for a serialization that aborted on a non-RDF term, and the retry is judged), frame sizes, delimited and (flat) non-delimited; read back with Graph.parse / Dataset.parse(format='jelly'), "
-        "parse_jelly_flat, parse_jelly_grouped (union) and parse_jelly_to_graph. Oracle: field-by-field equality (never "
+        "parse_jelly_flat, parse_jelly_grouped (union) and parse_jelly_to_graph, and again while another Jelly file (the previous "
+        "case's bytes) is being parsed in the same process (two flat parsers in lockstep; Dataset.parse inside a loop over the "
+        "grouped parser's frames). Oracle: field-by-field equality (never "
         "rdflib ==) of the SETS of triples / quads incl. graph names. A second pass runs with rdflib.NORMALIZE_LITERALS = "
         "False. Non-trivial: dataset with >= 2 graphs or a blank-node graph name, or a stream with >= 1 eviction; distinct by "
         "hash of (config, statements).")
@@ -131,7 +133,38 @@ def read_back(data: bytes, physical: int, reader: str) -> list:
     raise ValueError(reader)
 
 
-def roundtrip(cfg: dict, stmts: list, normalize: bool = True):
+def read_alongside(data: bytes, other: bytes, physical: int, how: str) -> list:
+    """Read `data` back while ANOTHER Jelly parse is in progress in the same process."""
+    from pyjelly.integrations.rdflib import parse as rparse
+    if how == "flat-lockstep":
+        # two files read in lockstep: zip(parse_jelly_flat(f1), parse_jelly_flat(f2)), the longer one finished afterwards
+        a, b = rparse.parse_jelly_flat(io.BytesIO(data)), rparse.parse_jelly_flat(io.BytesIO(other))
+        got = []
+        a_live = b_live = True
+        while a_live or b_live:
+            if a_live:
+                x = next(a, None)
+                if x is None:
+                    a_live = False
+                else:
+                    got.append(x)
+            if b_live and next(b, None) is None:
+                b_live = False
+        return [e[1] for e in (T.event_from_rdflib(x) for x in got) if e[0] == "stmt"]
+    # Graph.parse of another file inside a loop over this file's frames
+    out = []
+    for store in rparse.parse_jelly_grouped(io.BytesIO(data), graph_factory=lambda: rdflib.Graph(bind_namespaces="none"),
+                                            dataset_factory=lambda: rdflib.Dataset(default_union=False)):
+        out.extend(T.rdflib_store_statements(store))
+        side = rdflib.Dataset(default_union=False)
+        side.parse(data=other, format="jelly")
+    return out
+
+
+_OTHER: list = [None]
+
+
+def roundtrip(cfg: dict, stmts: list, normalize: bool = True, other: bytes | None = None):
     """-> (witness or None, data)"""
     old = rdflib.NORMALIZE_LITERALS
     rdflib.NORMALIZE_LITERALS = normalize
@@ -157,6 +190,19 @@ def roundtrip(cfg: dict, stmts: list, normalize: bool = True):
                 missing = sorted(want - got, key=repr)[:2]
                 return {"clause": "data-differs", "reader": reader, "bytes": data.hex(),
                         "summary": f"{reader}: {len(got)} statements read, {len(want)} written; extra={extra} missing={missing}"}, data
+        if other:
+            for how in ("flat-lockstep", "graph.parse-inside-grouped-loop"):
+                try:
+                    got = {T.norm_stmt(s) for s in read_alongside(data, other, cfg["physical"], how)}
+                except Exception as e:  # noqa: BLE001
+                    return {"clause": "parser-raised", "reader": how, "summary": f"{how}: {type(e).__name__}: {e}",
+                            "bytes": data.hex(), "other_bytes": other.hex()}, data
+                if got != want:
+                    extra = sorted(got - want, key=repr)[:2]
+                    missing = sorted(want - got, key=repr)[:2]
+                    return {"clause": "data-differs", "reader": how, "bytes": data.hex(), "other_bytes": other.hex(),
+                            "summary": f"{how} (another Jelly file being read at the same time): {len(got)} statements read, "
+                                       f"{len(want)} written; extra={extra} missing={missing}"}, data
         return None, data
     finally:
         rdflib.NORMALIZE_LITERALS = old
@@ -169,7 +215,13 @@ def run_shard(ctx):
         i += 1
         cfg, stmts = make_case(rng, 40 if ctx.tier == "quick" else rng.choice([40, 200]))
         normalize = rng.random() < .7
-        w, data = roundtrip(cfg, stmts, normalize)
+        other = _OTHER[0]
+        w, data = roundtrip(cfg, stmts, normalize, other)
+        if data and w is None:
+            _OTHER[0] = data           # the next case is read back next to this one
+        if other:
+            ctx.observe("reader:flat-lockstep-with-another-parse")
+            ctx.observe("reader:graph.parse-inside-grouped-loop")
         ctx.observe("roundtrips")
         ctx.observe(f"entry:{cfg['entry']}")
         ctx.observe(f"physical:{cfg['physical']}:logical:{cfg['logical']}")
@@ -185,8 +237,8 @@ def run_shard(ctx):
             ctx.case((cfg, stmts), False)
             continue
         if w is not None:
-            small = workloads.shrink_list(stmts, lambda s: (roundtrip(cfg, s, normalize)[0] or {}).get("clause") == w["clause"], 80)
-            w2 = roundtrip(cfg, small, normalize)[0] or w
+            small = workloads.shrink_list(stmts, lambda s: (roundtrip(cfg, s, normalize, other)[0] or {}).get("clause") == w["clause"], 80)
+            w2 = roundtrip(cfg, small, normalize, other)[0] or w
             w2.update({"cfg": cfg, "stmts": T.to_json(small), "normalize": normalize})
             ctx.violation(w2)
             ctx.case((cfg, stmts), False)
@@ -210,7 +262,8 @@ def run_shard(ctx):
 def replay(w: dict):
     cfg = w["cfg"]
     cfg["preset"] = tuple(cfg["preset"])
-    r = roundtrip(cfg, list(T.from_json(w["stmts"])), w.get("normalize", True))[0]
+    r = roundtrip(cfg, list(T.from_json(w["stmts"])), w.get("normalize", True),
+                  bytes.fromhex(w["other_bytes"]) if w.get("other_bytes") else None)[0]
     return None if r and r["clause"] == "refused-undersized" else r
 
 
